@@ -21,6 +21,16 @@ Theorem C16_other_datagrams_inert :
   forall s d, gp_ident (dg_pkt d) <> gw_PullData -> gp_ident (dg_pkt d) <> gw_PushData -> gw_step s d = (s, [], []).
 Proof. exact other_idents_inert. Qed.
 
+(* "Registering, updating or deleting a gateway takes effect for the very next datagram": the loop keeps no state of its
+   own about who may be served - what a datagram gets depends only on the checks switch and on the registration of the
+   claimed EUI as it is at that moment. *)
+Theorem C16_decision_depends_on_current_registration :
+  forall s s' d,
+    gs_nochecks s = gs_nochecks s' -> find_reg (gs_regs s) (gp_eui (dg_pkt d)) = find_reg (gs_regs s') (gp_eui (dg_pkt d)) ->
+    snd (fst (gw_step s d)) = snd (fst (gw_step s' d)) /\ snd (gw_step s d) = snd (gw_step s' d).
+Proof. exact decision_depends_on_current_registration. Qed.
+
 Print Assumptions C16_unauthorised_no_effect.
 Print Assumptions C16_authorisation_rule.
 Print Assumptions C16_other_datagrams_inert.
+Print Assumptions C16_decision_depends_on_current_registration.
